@@ -87,7 +87,7 @@ func GenWF(o WFOpts) *rapid.Generator[*Spec] {
 
 var (
 	shapesAny = []string{"S", "S", "*S", "*S", "defint", "defstr", "defslice", "defmap", "deffunc", "defchan", "defptr", "defarr",
-		"slice", "slice", "array", "map", "chan", "rchan", "schan", "func", "ptrslice", "ptrptr", "structlit", "basic", "basic", "iface", "ifacelit", "unsafe", "defbool", "deffloat", "emptyiface", "generic", "generic2", "ptrgeneric"}
+		"slice", "slice", "array", "map", "chan", "rchan", "schan", "func", "ptrslice", "ptrptr", "structlit", "basic", "basic", "iface", "ifacelit", "unsafe", "defbool", "deffloat", "emptyiface", "generic", "generic2", "ptrgeneric", "sliceptr", "mapptr", "slice2", "ptrarray", "funcptr", "chanptr", "structlit2"}
 	shapesValue  = []string{"S", "*S", "defint", "defstr", "defslice", "defmap", "defarr", "slice", "array", "map", "basic", "defbool", "deffloat", "ptrslice", "generic"}
 	shapesMeth   = []string{"S", "*S", "S", "*S", "defint", "*defint", "defslice", "deffunc"}
 	shapesStruct = []string{"S", "*S"}
@@ -173,7 +173,7 @@ func (b *wfBuilder) build() {
 				ks = []string{"func", "func", "func", "arg"}
 			}
 			if i == 0 {
-				ks = []string{"func", "func", "value", "struct", "ivalue"}
+				ks = []string{"func", "func", "func", "value", "struct", "ivalue", "arg"}
 				if o.OnlyFunc {
 					ks = []string{"func"}
 				}
@@ -421,6 +421,20 @@ func (b *wfBuilder) chooseType(i int) {
 			nd.t = Func(x)
 		case "ptrslice":
 			nd.t = Ptr(Slice(x))
+		case "sliceptr":
+			nd.t = Slice(Ptr(x))
+		case "mapptr":
+			nd.t = Map(Ptr(x))
+		case "slice2":
+			nd.t = Slice(Slice(x))
+		case "ptrarray":
+			nd.t = Ptr(Array(2, x))
+		case "funcptr":
+			nd.t = Func(Ptr(x))
+		case "chanptr":
+			nd.t = Chan(0, Ptr(x))
+		case "structlit2":
+			nd.t = &Type{K: "structlit", Fields: []LitField{{Name: "A", T: Ptr(x)}, {Name: "B", T: Slice(x)}}}
 		case "ptrptr":
 			nd.t = Ptr(Ptr(x))
 		case "structlit":
@@ -1013,6 +1027,19 @@ func (b *wfBuilder) makePlan() {
 		v := m.Judge(k)
 		b.s.Plan = append(b.s.Plan, Run{Inj: k, Fault: -1})
 		all = append(all, Run{Inj: k, Fault: -1})
+		if v.Accept && len(b.s.Injectors[k].Params) > 0 {
+			// a second valuation: zero-valued arguments, unless a field is selected from something
+			// (a nil pointer argument would be dereferenced)
+			safe := true
+			for _, key := range v.Needed {
+				if v.Set.Map[key].Src.Kind == "field" {
+					safe = false
+				}
+			}
+			if safe {
+				b.s.Plan = append(b.s.Plan, Run{Inj: k, Fault: -1, Zero: true})
+			}
+		}
 		if !v.Accept || b.o.NoFaults {
 			continue
 		}
